@@ -16,6 +16,12 @@ import StorageModel.Tx.Events
   processPostCommit, handleCommit, tx-complete listeners, in OnCommit order).  All theorems are about
   the return table regenerated from the code (`FromCode`).
 
+  The model also covers child data created over an existing plain parent entity (legal since fix
+  8269ce9: a child store only looks at its own data for "already exists"): such a create is a change
+  through the child store like any other — `child_change_parent_event` applies to it — and custom
+  index-stage constraints (boltz.Constraint registered with AddConstraint) that reject operations
+  through the error holder (see Properties/C07.lean); a rejected operation announces nothing.
+
   Order: deliveries are compared per listener registration (in order); nothing is claimed about the
   interleaving of asynchronous deliveries.  Commit actions belong to the MutateContext: a context
   used for a second transaction runs the actions registered during the first one again
@@ -350,5 +356,19 @@ example :
       [("c1", { f := ⟨"n", [], none⟩, child := some "k" })] Ctx.empty
       { mode := .update, reuseCtx := false, body := [.op (.delete .C "c1") .none false] }).res = .ok := by
   decide
+
+-- non-vacuity / witness: child data created over an existing plain parent entity announces exactly one
+-- parent event (marked) and one child event; a listener registered for creates on the parent store is
+-- called once, with the parent view of the entity as it is after the create
+example :
+    (runTx { regsP := [.listener .untyped [⟨.created, false⟩]], regsC := [], txListeners := 0, t := Generated.crudReturns }
+      [("p4", { f := ⟨"n0", ["t"], none⟩, child := none })] Ctx.empty
+      { mode := .update, reuseCtx := false, body := [.op (.create .C "p4" ⟨"n0", ["t"], none⟩ "k5") .none false] }).res = .ok ∧
+    deliveriesTo .P 0 0
+      (runTx { regsP := [.listener .untyped [⟨.created, false⟩]], regsC := [], txListeners := 0, t := Generated.crudReturns }
+        [("p4", { f := ⟨"n0", ["t"], none⟩, child := none })] Ctx.empty
+        { mode := .update, reuseCtx := false, body := [.op (.create .C "p4" ⟨"n0", ["t"], none⟩ "k5") .none false] }).fired
+      = [(false, .created, some (.parent "p4" ⟨"n0", ["t"], none⟩))] := by
+  decide +kernel
 
 end StorageModel.Properties.C08
